@@ -247,7 +247,11 @@ def check_doc(mk, case, doc, warn, info, frontend):
             if keys != sorted(keys):
                 vs.append(mk("C11:footnotes-not-in-label-order", case, "ascending labels", [x[2] for x in keys]))
             others = top[:k]
-            want_tr = bool(trans and footnotes and others)
+            # the transition separates the footnotes from the *content*; a document that has none (only footnotes, and
+            # possibly warning messages, which are no content and vanish when suppressed) must not begin with one
+            content = [n for n in others if not isinstance(n, nodes.system_message)
+                       and not (isinstance(n, nodes.transition) and "footnotes" in n["classes"])]
+            want_tr = bool(trans and footnotes and content)
             has_tr = bool(others) and isinstance(others[-1], nodes.transition) and "footnotes" in others[-1]["classes"]
             if want_tr and not (has_tr and len(trans_nodes) == 1):
                 vs.append(mk("C11:footnote-transition", case, "exactly one 'footnotes' transition before the footnotes",
